@@ -1,4 +1,6 @@
 import SqlProofs.FilterSpec
+import SqlProofs.SpacesSpec
+import SqlProofs.StripwsSpec
 /-!
 # C10 — requested layout normal forms are actually achieved
 
@@ -13,5 +15,15 @@ namespace Sql.C10
 theorem no_line_ends_in_blank : type_of% @serializer_no_trailing_blank := @serializer_no_trailing_blank
 theorem strip_whitespace_only_touches_whitespace : type_of% @stripWhitespace_preserves_sig := @stripWhitespace_preserves_sig
 theorem spaces_only_touches_whitespace : type_of% @spaces_preserves_sig := @spaces_preserves_sig
+
+/-- `use_space_around_operators` normal form: in every list of the result every Operator/Comparison-typed child has a whitespace-typed sibling (or the list end) directly before and after it -/
+theorem spaces_normal_form : type_of% @spaces_nf := @spaces_nf
+/-- … and it is a fixed point (tree level; after repair f036566) -/
+theorem spaces_fixed_point : type_of% @spaces_idempotent := @spaces_idempotent
+/-- `strip_whitespace` normal form: every child list of the result is a fixed point of the default pass (a whitespace leaf is '' when first or after whitespace, ' ' otherwise);
+inside a parenthesis the child after `(` and the child before `)` are not whitespace -/
+theorem strip_whitespace_normal_form : type_of% @stripws_nf := @stripws_nf
+theorem no_blank_after_open_paren : type_of% @stripwsParenthesis_after_open := @stripwsParenthesis_after_open
+theorem no_blank_before_close_paren : type_of% @stripwsParenthesis_before_close := @stripwsParenthesis_before_close
 
 end Sql.C10
